@@ -1296,6 +1296,7 @@ func (schema *Schema) visitXOFOperations(settings *schemaValidationSettings, val
 				discriminatorVal, okcheck := valuemap[pn]
 				if !okcheck {
 					return &SchemaError{
+						Value:       value,
 						Schema:      schema,
 						SchemaField: "discriminator",
 						Reason:      fmt.Sprintf("input does not contain the discriminator property %q", pn),
@@ -1725,6 +1726,9 @@ func (schema *Schema) visitJSONString(settings *schemaValidationSettings, value 
 		if cp == nil {
 			var err error
 			if cp, err = schema.compilePattern(settings.regexCompiler); err != nil {
+				if se, ok := err.(*SchemaError); ok {
+					se.Value = value
+				}
 				if !settings.multiError {
 					return err
 				}
